@@ -1,9 +1,16 @@
 (* C02 — the synthesized Streett(1) implementation.  Statements only.
 
-   Model: GenProofs/TransducerModel.v (hand-written, tied to
-   gr1.make_streett_transducer by the correspondence check) over the
-   GENERATED _controllable_action.  The theorems below hold for ARBITRARY
-   iterate lists, hence for whatever the solver returns:
+   Model: the construction TRANSLATED from gr1.make_streett_transducer on
+   every run (gen/TransducerGen.v, tie T).  C02_construction_is_translated
+   shows that whenever the translated construction succeeds, the action it
+   stores is [streett_action] (GenProofs/TransducerModel.v, the same
+   construction with its three parts rho_1, rho_2, rho_3 named, over the
+   GENERATED _controllable_action), its initial condition is the generated
+   _make_init of "counter = 0", and the generated is_realizable holds; the
+   theorems below are about [streett_action].  What remains compared rather
+   than translated is the arena: how the memory variable is laid out in the
+   component's valuations (correspondence check).  The theorems hold for
+   ARBITRARY iterate lists, hence for whatever the solver returns:
 
    (a) every step the synthesized action allows satisfies the specified
        component action under the mode's causality rule (sys_action if
@@ -45,14 +52,30 @@
        axiom Classical_Prop.classic (see Print Assumptions below); all other
        theorems of this file are axiom-free.
 
-   Together (a)-(g) are the statement of C02 for the model (hand-written
-   transducer over the generated solver); the model is tied to the real
-   make_streett_transducer by the correspondence check. *)
+   Together (a)-(g) are the statement of C02 for the translated
+   construction over the translated solver. *)
 From Coq Require Import List Bool Arith Lia.
 From Omega Require Import L4.Arena L4.Kleene.
-From OmegaGen Require Import FixpointGen Gr1Gen.
-From OmegaGP Require Import TransducerModel StreettTProofs StreettNB2 StreettNB4 StreettIter2
+From OmegaGen Require Import FixpointGen Gr1Gen TransducerGen.
+From OmegaGP Require Import TransducerModel TransducerBridge StreettTProofs StreettNB2 StreettNB4 StreettIter2
   StreettClosure1 StreettClosure2 StreettLive4.
+
+Theorem C02_construction_is_translated :
+  forall nc nx ny G (E S EI SI : bdd) (holds goals : list bdd) (moore plus_one : bool)
+         qinit fuel z yij xijk a i,
+  StreettGen.make_streett_transducer nc nx ny G E S EI SI holds goals moore
+    plus_one qinit fuel z yij xijk = Some (a, i) ->
+  a = streett_action nc nx ny G E S holds goals moore plus_one z yij xijk /\
+  Gr1Gen.make_init nc nx (ny * G) EI SI plus_one qinit fuel
+    (streett_init_count nc nx ny G) z = Some i /\
+  Gr1Gen.is_realizable nc nx (ny * G) EI SI plus_one qinit fuel z = Some true /\
+  1 <= length goals /\
+  beq nc nx (ny * G) a bfalse = false.
+Proof.
+  intros nc nx ny G E S EI SI holds goals moore plus_one qinit fuel z yij xijk a i.
+  exact (streett_generated_some nc nx ny E S EI SI holds goals moore plus_one qinit G
+           fuel z yij xijk a i).
+Qed.
 
 Section C02.
 Variables nc nx ny G : nat.
@@ -174,6 +197,7 @@ Proof.
   all: repeat constructor; intros v; reflexivity.
 Qed.
 
+Print Assumptions C02_construction_is_translated.
 Print Assumptions C02_never_blocks.
 Print Assumptions C02_region_closed.
 Print Assumptions C02_reachable_states_winning.
